@@ -28,6 +28,12 @@ func (ssc *StatefulSetController) VerifQueue() workqueue.RateLimitingInterface {
 	return ssc.queue
 }
 
+// VerifSetQueue replaces the controller's work queue (a harness installs one whose rate limiter does not
+// make it wait minutes for long runs of failures).
+func (ssc *StatefulSetController) VerifSetQueue(q workqueue.RateLimitingInterface) {
+	ssc.queue = q
+}
+
 // VerifGetPatch returns the revision data the controller records for set.
 func VerifGetPatch(set *apps.StatefulSet) ([]byte, error) {
 	return getPatch(set)
